@@ -16,6 +16,14 @@ POLICY_PKG, POLICY_HARNESS = "policy", ["policy/zz_verif_c12_policy_test.go"]
 IAMC_PKG, IAMC_HARNESS = "auth/client/iam", ["auth/client/iam/zz_verif_c12_iamclient_test.go"]
 HARNESSES = [(POLICY_PKG, POLICY_HARNESS, "c12policy"), (IAMC_PKG, IAMC_HARNESS, "c12iamclient"), (PKG, HARNESS, "c12"), (IAM_PKG, IAM_HARNESS, "c12iam"), (HOLDER_PKG, HOLDER_HARNESS, "c12holder"), (DISC_PKG, DISC_HARNESS, "c12disc")]
 
+REQUIRED_DEEP = ["fact_regex_compiled_as_ecmascript", "ecma_anchored_accepts_iff", "ecma_dollar_is_end_of_input", "ecma_classes_are_ascii", "pattern_holds_iff_ecma",
+                 "ecma_whole_match_is_input",
+                 "fulfill_ok_spec", "fulfill_unrequired_refused", "fulfill_at_most_once", "fulfill_total", "consumer_invariant", "consumer_stored_mappings_not_forged",
+                 "next_some_spec", "next_none_iff_all_fulfilled", "credential_map_of_reachable", "access_token_credentials_not_forged",
+                 "input_descriptor_values_source", "access_token_fields_faithful", "duplicate_field_refused",
+                 "fact_vp_format_preference", "fact_vp_format_default", "choose_vp_format_range", "choose_vp_format_supported",
+                 "fact_fulfill_source", "fact_next_source", "fact_is_fulfilled_source", "fact_credential_map_source", "fact_new_pex_consumer_source",
+                 "fact_resolve_input_descriptor_values_source"]
 REQUIRED = ["pe_total_match_raw", "pe_total_build_raw", "pe_total_credentials_required_raw", "pe_total_resolve_fields_raw",
             "old_code_panics_on_nil_entry", "fact_nil_entries_checked", "pe_total_match", "pe_total_build", "pe_total_validate", "pe_total_resolve_fields",
             "match_sound", "filter_sound_and_complete",
@@ -31,6 +39,87 @@ REQUIRED = ["pe_total_match_raw", "pe_total_build_raw", "pe_total_credentials_re
             "old_code_panics_pick_min_only", "old_code_accepts_shadowed_entry",
             "fact_array_case_guarded", "fact_apply_derefs_guarded", "fact_apply_max_guarded",
             "fact_resolve_rejects_duplicate_ids", "fact_cfg_fixed", "fact_sr_schema", "fact_mapping_paths"]
+
+
+# ---------------------------------------------------------------- ECMA-262 semantics of the anchored-class pattern subset
+# (same grammar as lean/NutsModel/C12/Ecma.lean, written independently): `^ atom quant? $`; `$` = end of INPUT only,
+# \d = [0-9], \w = [A-Za-z0-9_].  Used INSTEAD of the harness's regexp2 table for these patterns, so the oracle does
+# not depend on any regular-expression library; disagreements with the table are counted (ECMA_TABLE_DISAGREE).
+ECMA_TABLE_DISAGREE = []
+_PLAIN = set("abcdefghijklmnopqrstuvwxyzABCDEFGHIJKLMNOPQRSTUVWXYZ0123456789")
+_DIG = set("0123456789")
+_WORD = _PLAIN | {"_"}
+
+
+def ecma_anchored(p):
+    """-> (member predicate, min, max|None) or None when the pattern is outside the subset"""
+    if not p.startswith("^"):
+        return None
+    i, sets = 1, []
+    if p[i:i + 2] == "\\d":
+        sets.append(_DIG); i += 2
+    elif p[i:i + 2] == "\\w":
+        sets.append(_WORD); i += 2
+    elif p[i:i + 1] == "[":
+        i += 1
+        while True:
+            if i >= len(p):
+                return None
+            if p[i] == "]":
+                if not sets:
+                    return None
+                i += 1
+                break
+            if p[i:i + 2] == "\\d":
+                sets.append(_DIG); i += 2
+            elif p[i:i + 2] == "\\w":
+                sets.append(_WORD); i += 2
+            elif i + 2 < len(p) and p[i + 1] == "-":
+                lo, hi = p[i], p[i + 2]
+                if lo in _PLAIN and hi in _PLAIN and ord(lo) <= ord(hi):
+                    sets.append(set(chr(x) for x in range(ord(lo), ord(hi) + 1))); i += 3
+                else:
+                    return None
+            elif p[i] in _PLAIN:
+                sets.append({p[i]}); i += 1
+            else:
+                return None
+    else:
+        return None
+    rest = p[i:]
+    m = re.fullmatch(r"(?:(\+)|(\*)|\{([0-9]+)(,([0-9]*))?\})?\$", rest, re.ASCII)
+    if not m:
+        return None
+    if m.group(1):
+        mn, mx = 1, None
+    elif m.group(2):
+        mn, mx = 0, None
+    elif m.group(3) is not None:
+        mn = int(m.group(3))
+        mx = mn if m.group(4) is None else (None if m.group(5) == "" else int(m.group(5)))
+        if mx is not None and mx < mn:
+            return None
+    else:
+        mn, mx = 1, 1
+    member = set().union(*sets)
+    return member, mn, mx
+
+
+def ecma_retbl(tbl):
+    """override the entries of subset patterns with the library-free evaluation"""
+    cache = {}
+    for (p, s_), got in list(tbl.items()):
+        if p not in cache:
+            cache[p] = ecma_anchored(p)
+        a = cache[p]
+        if a is None:
+            continue
+        ok = all(ch in a[0] for ch in s_) and len(s_) >= a[1] and (a[2] is None or len(s_) <= a[2])
+        want = ("whole", s_) if ok else ("noMatch", "")
+        if tuple(got) != want:
+            ECMA_TABLE_DISAGREE.append((p, s_, tuple(got), want))
+        tbl[(p, s_)] = want
+    return tbl
 
 
 # ---------------------------------------------------------------- independent reference matcher (DIF PE semantics)
@@ -274,9 +363,10 @@ def sr_pick_without_max(sr):
 
 # ---------------------------------------------------------------- the check
 def run(ctx):
+    del ECMA_TABLE_DISAGREE[:]
     facts = ctx.facts()
-    thms = ctx.build_and_audit(["NutsProofs.Props.C12"])
-    for r in REQUIRED:
+    thms = ctx.build_and_audit(["NutsProofs.Props.C12", "NutsProofs.Props.C12Ecma", "NutsProofs.Props.C12Consumer"])
+    for r in REQUIRED + REQUIRED_DEEP:
         if not any(t.endswith("Props." + r) for t in thms):
             ctx.oblige("thm-present:" + r, False, "theorem missing or its module does not build")
     ctx.trusted += [
@@ -359,7 +449,7 @@ def run(ctx):
         if kind == "case":
             case, case_line = op, ops_raw[i]
             last_build = None
-            retbl = {(p, s): (k, v) for p, s, k, v in op.get("re", [])}
+            retbl = ecma_retbl({(p, s): (k, v) for p, s, k, v in op.get("re", [])})
             continue
         if kind == "reject" or case is None:
             continue
@@ -367,7 +457,7 @@ def run(ctx):
         creds = {c["name"]: c for c in case["creds"]}
         if kind == "validate" and op.get("re"):
             retbl = dict(retbl)
-            retbl.update({(p_, s_): (k_, v_) for p_, s_, k_, v_ in op["re"]})
+            retbl.update(ecma_retbl({(p_, s_): (k_, v_) for p_, s_, k_, v_ in op["re"]}))
         if line.endswith(" hang"):
             pats = sorted({f["filter"]["pattern"] for d in pd["descs"] for f in d.get("fields", []) if "pattern" in f.get("filter", {})})
             report("C12:hang:matchFilter:regexp-without-timeout",
@@ -681,7 +771,7 @@ def run(ctx):
 
     def load_case(k):
         c = json.loads(ops_raw[case_of[k]])
-        return c, ops_raw[case_of[k]], {(p_, s_): (k_, v_) for p_, s_, k_, v_ in c.get("re", [])}
+        return c, ops_raw[case_of[k]], ecma_retbl({(p_, s_): (k_, v_) for p_, s_, k_, v_ in c.get("re", [])})
 
     def creport(sig, what, k, extra_line=None):
         """report on the op at line k (replay = its case + the op)"""
@@ -873,6 +963,11 @@ def run(ctx):
                 oracle_bad += 1
     ctx.cov["producers"] = producer_lines
 
+    # the harness's regexp2 contract table (compiled by the harness itself with regexp2.ECMAScript) agrees with the
+    # library-free ECMA-262 evaluation on the anchored-class subset
+    ctx.oblige("regexp2-table-is-ecma262-on-anchored-subset", not ECMA_TABLE_DISAGREE,
+               f"{len(ECMA_TABLE_DISAGREE)} table entries differ, first: {ECMA_TABLE_DISAGREE[:2]}")
+    counts["ecma-subset-table-disagreements"] = len(ECMA_TABLE_DISAGREE)
     ctx.oblige("oracle:reference-matcher(impl)", oracle_bad == 0, f"{oracle_bad} disagreements with the reference matcher / panics")
 
     # ---- correspondence model vs implementation
